@@ -115,7 +115,8 @@ class Gen(object):
                 title = self.mk('tk') + r.choice(['', ' two', ' two three four'])
             titles.append(title)
             u = {'kind': kind, 'level': lvl, 'star': r.random() < 0.15,
-                 'label': ('L%d' % self.n) if r.random() < 0.4 else None, 'title': title,
+                 'label': (('L%d' % self.n) if r.random() < 0.85 else r.choice(['sect0002', 'sect2', 'index', 'f002', 'sec:a.b(c)', 'x y']))
+                 if r.random() < 0.45 else None, 'title': title,
                  'body': self.body(), 'children': self.units(levels, sub, titles)}
             out.append(u)
         return out
